@@ -458,6 +458,18 @@ def scope_set_rule(ctx, fb):
 
 
 def div_zero_rule(ctx, fb):
+    # decided by the symbolic division table (numtables.py): on the grid, division by an exact zero — and nothing else — is an
+    # error, every other quotient is exact, and the compiler's divide-by-zero assertions are unreachable with a zero divisor
+    from . import numtables
+    d_tab = numtables.rule_exact_arith(ctx, "C08-vector", {"/": "<values::Number as std::ops::Div>::div"})
+    z_tab = numtables.rule_zero_guards(ctx, "C08-vector")
+    if d_tab >= 1 and z_tab is not None:
+        return
+    with ctx.fallback():
+        _div_zero_shape_rule(ctx, fb)
+
+
+def _div_zero_shape_rule(ctx, fb):
     f = fb.find("<values::Number as std::ops::Div>::div")
     p = Prov(f)
     dom = f.dominators()
